@@ -30,6 +30,9 @@ type imodel struct {
 	tags map[string]string
 	subj map[string]string
 	mem  map[string]int // 1 must be found, -1 must not be found, 0 unspecified
+	// own: the digest was inserted as a manifest (plain, tagged, as child) since it was last removed; it then does
+	// not depend on a referrers response that happens to have the same digest
+	own map[string]bool
 }
 
 func (m *imodel) hasRef(d string) bool {
@@ -105,6 +108,7 @@ func apply(idx *types.Index, m *imodel, o op) {
 	case "add":
 		idx.AddDesc(dsc(d, nil))
 		m.mem[d] = 1
+		m.own[d] = true
 	case "addidx": // untagged insertion with the children option
 		var opts []types.IndexOpt
 		if o.Child != "" {
@@ -112,6 +116,7 @@ func apply(idx *types.Index, m *imodel, o op) {
 		}
 		idx.AddDesc(dsc(d, nil), opts...)
 		m.mem[d] = 1
+		m.own[d] = true
 	case "addtag":
 		var opts []types.IndexOpt
 		if o.Child != "" {
@@ -120,13 +125,14 @@ func apply(idx *types.Index, m *imodel, o op) {
 		idx.AddDesc(dsc(d, map[string]string{aTag: o.Tag}), opts...)
 		m.tags[o.Tag] = d
 		m.mem[d] = 1
+		m.own[d] = true
 	case "addsubj":
 		old, had := m.subj[o.Subj]
 		idx.AddDesc(dsc(d, map[string]string{aSubj: o.Subj}))
 		m.subj[o.Subj] = d
 		m.mem[d] = 1
-		if had && old != d && !m.hasRef(old) && m.mem[old] == 1 {
-			m.mem[old] = 0 // previous response replaced; whether another entry of that digest remains is unspecified
+		if had && old != d && !m.hasRef(old) && m.mem[old] == 1 && !m.own[old] {
+			m.mem[old] = 0 // previous response replaced; a digest that was only ever a response may go with it
 		}
 	case "rm":
 		idx.RmDesc(dsc(d, nil))
@@ -141,6 +147,7 @@ func apply(idx *types.Index, m *imodel, o op) {
 			}
 		}
 		m.mem[d] = -1
+		delete(m.own, d)
 	case "rmtag":
 		idx.RmDesc(dsc(d, map[string]string{aTag: o.Tag}))
 		if m.tags[o.Tag] == d {
@@ -150,6 +157,7 @@ func apply(idx *types.Index, m *imodel, o op) {
 		idx.RmDesc(types.Descriptor{Annotations: map[string]string{aTag: o.Tag}})
 		if old, ok := m.tags[o.Tag]; ok {
 			delete(m.tags, o.Tag)
+			delete(m.own, old) // removal by tag alone takes the whole entry
 			if !m.hasRef(old) && m.mem[old] == 1 {
 				m.mem[old] = 0
 			}
@@ -158,7 +166,7 @@ func apply(idx *types.Index, m *imodel, o op) {
 		idx.RmDesc(types.Descriptor{Annotations: map[string]string{aSubj: o.Subj}})
 		if old, ok := m.subj[o.Subj]; ok {
 			delete(m.subj, o.Subj)
-			if !m.hasRef(old) && m.mem[old] == 1 {
+			if !m.hasRef(old) && m.mem[old] == 1 && !m.own[old] {
 				m.mem[old] = 0
 			}
 		}
@@ -167,6 +175,7 @@ func apply(idx *types.Index, m *imodel, o op) {
 		if m.mem[d] != 1 {
 			m.mem[d] = 1
 		}
+		m.own[d] = true
 	}
 	for _, dd := range digs {
 		if m.hasRef(dd) {
@@ -340,7 +349,7 @@ type local struct {
 
 func runSeq(r *local, ops []op, record bool) string {
 	idx := types.Index{}
-	m := &imodel{tags: map[string]string{}, subj: map[string]string{}, mem: map[string]int{}}
+	m := &imodel{tags: map[string]string{}, subj: map[string]string{}, mem: map[string]int{}, own: map[string]bool{}}
 	for _, d := range digs {
 		m.mem[d] = -1
 	}
